@@ -140,7 +140,7 @@ UNITS['removers'] = dict(
 IDE = 'AnyId<std::hash, EmptyAnyStorage>'
 IDS = 'AnyId<std::hash, Stor>'
 UNITS['anyid'] = dict(
-    tu='inst/anyid.cpp', filter=['eventpp::operator', 'AnyId', 'compare', 'MakeHash', 'std::hash'], std='c++11',
+    tu='inst/anyid.cpp', filter=['eventpp::operator', 'AnyId', 'compare', 'MakeHash', 'std::hash', 'anyid_internal_::Has'], std='c++11',
     root=('ClassTemplateSpecializationDecl', 'AnyId'), root_q=IDE,
     extra_roots=[('ClassTemplateSpecializationDecl', 'AnyId', IDS),
                  ('ClassTemplateSpecializationDecl', 'hash', 'std::hash<AnyId<>>'), ('ClassTemplateSpecializationDecl', 'hash', 'std::hash<' + IDS + '>'),
